@@ -284,6 +284,17 @@ SIGS = [
     ("triangle_intersection", "classify_coincident", ["M2N", "B"]),
     ("triangle_intersection", "should_use", ["INT"]),
     ("triangle_intersection", "check_unused", ["INT", ("mlist", "INT"), "OL"]),
+    # phase 4 (pycurve)
+    ("curve_helpers", "make_subdivision_matrices", ["I"]),
+    ("curve_helpers", "subdivide_nodes", ["MN"]),
+    ("curve_helpers", "reduce_pseudo_inverse", ["MN"]),
+    ("curve_helpers", "elevate_nodes", ["MN"]),
+    ("curve_helpers", "get_curvature", ["MN", "C", "S"]),
+    ("curve_helpers", "projection_error", ["MN", "MN"]),
+    ("curve_helpers", "maybe_reduce", ["MN"]),
+    ("curve_helpers", "full_reduce", ["MN"]),
+    ("curve_helpers", "vec_size", ["MN", "S"]),
+    ("curve_helpers", "compute_length", ["MN"]),
 ]
 # phase 4 (pyclassify): the kind of the result where the returned literals alone do not determine it (`([], None)`)
 OUTCOME = ("tuple", (("opt", ("list", ("list", ("tuple", ("N", "S", "S")))), "none"), ("opt", "B", "none")))
@@ -789,6 +800,10 @@ def lty(k):
             "REF": "Model.Walk.WNode K", "OL": "List (Model.Classify.Intersection K)", "POS": "Nat",
             "CSET": "List Model.Classify.Cls"}
     base["MC"] = "List (List K)"          # phase 4 (pytri)
+    if k == "MO":                      # phase 4 (pycurve): a 2-D `np.empty` array that is being filled
+        return "List (List (Option K))"
+    if k == "R":                       # phase 4 (pycurve): a 1 x n array (row vector)
+        return "List K"
     if isinstance(k, str) and k in base:
         return base[k]
     if isinstance(k, tuple) and k[0] == "mlist":
@@ -958,6 +973,11 @@ class Loop:
         self.body, self.rest, self.has_exit, self.r, self.res = body, rest, has_exit, r, res
 
 
+class P4While:                    # phase 4 (pycurve): `while cond: body ; rest` with an explicit bound `fuel`
+    def __init__(self, cond, spat, init, sty, body, rest):
+        self.cond, self.spat, self.init, self.sty, self.body, self.rest = cond, spat, init, sty, body, rest
+
+
 def impure(ir):
     if isinstance(ir, (Bind, Shape, Fail)):
         return True
@@ -971,6 +991,8 @@ def impure(ir):
         return impure(ir.then) or impure(ir.els)
     if isinstance(ir, Phi):
         return impure(ir.then) or impure(ir.els) or impure(ir.body)
+    if isinstance(ir, P4While):          # phase 4 (pycurve)
+        return True
     raise AssertionError(ir)
 
 
@@ -1172,6 +1194,7 @@ class FunctionTranslator:
         self.ro_lists = set()    # list parameters that are NOT declared mutable
         self.plain_rets = []
         self.guarded = set()     # shape entries already checked to be non-negative
+        self.p4 = (mod, fn) in P4_KEYS      # phase 4 (pycurve): the additional handlers are active for these functions only
 
     def tmp(self):
         while True:
@@ -1303,6 +1326,10 @@ class FunctionTranslator:
         for x in self.extra:
             if x == "sqrt":
                 binders.append("(sqrt : K → K)")
+            elif x == "fuel":            # phase 4 (pycurve): bound of the `while` loops
+                binders.append("(fuel : Nat)")
+            elif x == "quad":            # phase 4 (pycurve): scipy.integrate.quad(f, a, b) -> (value, error estimate)
+                binders.append("(quad : (K → Except Err K) → K → K → Except Err (K × K))")
             else:
                 ak, ar, can_raise = ABSTRACT[x]
                 if "." in x[1] or any(isinstance(k_, tuple) and k_[0] == "mlist" for k_ in ak):     # phase 4 (pypipeline)
@@ -1465,6 +1492,11 @@ class FunctionTranslator:
                     + body + ") fun %s =>\n" % ir.res
                     + pad + "(match %s with\n" % ir.res + pad + "| .inl %s => %s\n" % (ir.r, leave)
                     + pad + "| .inr %s =>\n" % ir.spat + self.render(ir.rest, monadic, ind + 1, ctx).rstrip("\n") + ")\n")
+        if isinstance(ir, P4While):      # phase 4 (pycurve)
+            assert monadic
+            return (pad + "Rt.bind (Rt.whileM fuel (%s : %s) (fun %s => %s) fun %s =>\n" % (ir.init, ir.sty, ir.spat, ir.cond, ir.spat)
+                    + self.render(ir.body, True, ind + 2, ctx).rstrip("\n") + ") fun %s =>\n" % ir.spat
+                    + self.render(ir.rest, monadic, ind, ctx))
         raise AssertionError(ir)
 
     # -------------------------------------------------------------- statements
@@ -1473,6 +1505,10 @@ class FunctionTranslator:
             return k(env)
         st, rest = stmts[0], stmts[1:]
         where = "line %d" % st.lineno
+        if self.p4:                                    # phase 4 (pycurve)
+            r4 = self.p4_stmt(st, rest, env, k, where)
+            if r4 is not None:
+                return r4
         if isinstance(st, ast.Pass):
             return self.block(rest, env, k)
         if isinstance(st, ast.ImportFrom) and st.level == 0 and all(
@@ -1965,6 +2001,10 @@ class FunctionTranslator:
         if isinstance(target.value, ast.Name) and isinstance(self.prealloc.get(target.value.id), tuple) \
                 and self.prealloc[target.value.id][0] == "G":
             return self.grid_assign(target.value.id, sl, value, rest, env, k, where)      # phase 4 (pypipeline)
+        if self.p4:                                    # phase 4 (pycurve)
+            r4 = self.p4_slice_assign(target, value, rest, env, k, where)
+            if r4 is not None:
+                return r4
 
         def is_full(x):
             return isinstance(x, ast.Slice) and x.lower is None and x.upper is None and x.step is None
@@ -2208,6 +2248,10 @@ class FunctionTranslator:
     def assign(self, target, value, rest, env, k, where):
         if isinstance(target, ast.Subscript):
             return self.slice_assign(target, value, rest, env, k, where)
+        if self.p4:                                    # phase 4 (pycurve)
+            r4 = self.p4_assign(target, value, rest, env, k, where)
+            if r4 is not None:
+                return r4
         if isinstance(target, ast.Name) and self.np_empty_kind(value, env) is not None:
             # np.empty(...): no value until the array is overwritten (`x[:] = ...`); reading it before is refused
             pk = self.np_empty_kind(value, env)
@@ -2487,6 +2531,10 @@ class FunctionTranslator:
 
     def tx(self, node, env):
         where = "line %d" % getattr(node, "lineno", 0)
+        if self.p4:                                    # phase 4 (pycurve)
+            r4 = self.p4_tx(node, env, where)
+            if r4 is not None:
+                return r4
         if not (isinstance(node, ast.Name) and node.id in env):
             c = self.const_eval(node)
             if c is not None:
@@ -3436,7 +3484,7 @@ class FunctionTranslator:
     def use_extra(self, x):
         if x not in self.extra:
             self.extra.append(x)
-            self.extra.sort(key=lambda y: (y != "sqrt", y))
+            self.extra.sort(key=lambda y: (y != "sqrt", y != "fuel", y != "quad", y if isinstance(y, tuple) else ()))
 
     def abstract_call(self, node, mod, fn, env, where):
         kinds, ret, can_raise = ABSTRACT[(mod, fn)]
@@ -3525,7 +3573,7 @@ class FunctionTranslator:
             args.append(("true" if dv else "false") if isinstance(dv, bool) else lit(dv))
         for x in callee.uses_sqrt:
             self.use_extra(x)
-        args = [x if x == "sqrt" else x[1].replace(".", "_") for x in callee.uses_sqrt] + args
+        args = [x if x in ("sqrt", "fuel", "quad") else x[1].replace(".", "_") for x in callee.uses_sqrt] + args
         code = "%s %s" % (lean_fn_name(mod, fn), " ".join(args))
         if callee.monadic:
             t = self.tmp()
@@ -3545,6 +3593,10 @@ class FunctionTranslator:
         kw = {k.arg: k.value for k in node.keywords}
         if None in kw:
             raise Problem("**kwargs (%s)" % where)
+        if self.p4:                                    # phase 4 (pycurve)
+            r4 = self.p4_prim(node, target, kw, env, where)
+            if r4 is not None:
+                return r4
 
         def kw_is(key, value):
             return key in kw and isinstance(kw[key], ast.Constant) and kw[key].value == value and \
@@ -3720,6 +3772,746 @@ class FunctionTranslator:
                       % ("np." if target[0] == "np" else "bisect." if target[0] == "bisect" else "", name, where))
 
 
+# ====================================================================================================================
+# phase 4 (pycurve): the remainder of hazmat/curve_helpers.py
+#
+# TRUSTED ADDITIONS (active only for the functions of `P4_KEYS`; the emission of every other function is unchanged)
+#  * module-level constant arrays `NAME = np.asfortranarray([[c, ...], ...])` (numeric constants only) are emitted as
+#    `<module>.NAME : List (List K)` (rows) and may be read by name.
+#  * ARRAYS THAT ARE UPDATED IN PLACE.  `x[:, j] = v`, `x[:, [j]] = c`, `x[:, lo:hi] = e`, `x[i, j] = c`, `x[lo:hi, j] = v`,
+#    `x[lo:hi, j] += v`, `x *= c`, `x /= c` re-bind `x` (the new value is the old one with the stated entries replaced).
+#    This is sound only if no other name / view of `x` exists; it is accepted only for a local `x` that passes the
+#    SYNTACTIC, flow-insensitive check `p4_mutable_ok`:
+#      - every binding of `x` in the function is a fresh array: `np.zeros / np.empty`, an arithmetic expression, `np.dot`,
+#        the result (or a component of the tuple result) of a translated function all of whose `return`s deliver fresh
+#        arrays (`p4_returns_fresh`: `matrix_product`, `make_subdivision_matrices`);
+#      - `x` (also as `x[...]`, `x.T`) never occurs in a position that can create a second reference: right-hand side of
+#        an assignment to a name, element of a tuple / list / dict display outside `return`, argument of a call other
+#        than a fresh-returning translated function or a NumPy reduction, receiver of a method call, iterable of a
+#        `for`, anywhere in a comprehension / lambda.  (Operands of arithmetic and the right-hand side of a slice
+#        assignment are copied by NumPy.)
+#  * `np.empty((d, n))` / `np.empty(a.shape)` (2-D): kind MO = an array of `Option K`, no entry has a value; slice / column
+#    assignments fill entries, `x /= c` acts on the filled entries (NumPy divides the garbage too: no exception, and
+#    unobservable once every entry is overwritten).  READING the array (any use of the name as a value, e.g. `return x`)
+#    requires every entry to have been assigned (`Rt.oget`, otherwise `Err.badInput`): the result never depends on
+#    uninitialised memory.
+#  * `np.arange(a, n, dtype=np.float64)[np.newaxis, :]`: kind R = a `1 x (n - a)` array, the numbers a, a+1, ..;
+#    `R * A`, `A * R` for a 2-D array `A` with as many columns (anything else: `badInput`), `c - R`, `c + R`, `c * R`.
+#  * `c * v`, `v * c`, `v / c` for a 1-D array `v`; `x ** k` for a constant integer 2 <= k <= 4 is the k-fold product
+#    (left-associated); `a.ravel(order="F")` of a `d x 1` array is the 1-D array of its entries.
+#  * `raise mod.Exc(...)` for a module alias `mod` and a class of `EXC` (the listed exception classes live in helpers.py).
+#  * `np.zeros((a, b))` (2-D, `ValueError` for a negative dimension); `np.linalg.norm(A, ord="fro")` = `sqrt (Model.frobSq A)`.
+#  * `while cond: body` (no break / continue / return inside, `cond` cannot raise) = `Rt.whileM fuel`: the generated definition
+#    takes an explicit bound `fuel : Nat` and answers `Err.recursion` when the condition still holds after `fuel` iterations
+#    (NOT a behaviour of the code: the theorems are stated for a sufficient `fuel`).
+#  * a local `import scipy.integrate` has no effect; `g = functools.partial(f, a)` for a translated `f(a, x)` is the closure
+#    `fun x => f a x` (kind CL, known in the environment only); `scipy.integrate.quad(g, lo, hi)` is an ABSTRACT parameter
+#    `quad : (K → Except Err K) → K → K → Except Err (K × K)` of the generated definition (nothing is assumed about it).
+P4_KEYS = {
+    ("curve_helpers", "make_subdivision_matrices"),
+    ("curve_helpers", "subdivide_nodes"),
+    ("curve_helpers", "reduce_pseudo_inverse"),
+    ("curve_helpers", "elevate_nodes"),
+    ("curve_helpers", "get_curvature"),
+    ("curve_helpers", "projection_error"),
+    ("curve_helpers", "maybe_reduce"),
+    ("curve_helpers", "full_reduce"),
+    ("curve_helpers", "compute_length"),
+}
+
+RUNTIME_P4 = """\
+/-! ### phase 4 (pycurve): arrays updated in place, partially filled `np.empty` arrays, row vectors -/
+
+/-- position of the Python index `j` in a sequence of length `n` (`IndexError` outside `-n .. n-1`) -/
+def pos (n : Nat) (j : Int) : Except Err Nat :=
+  if 0 ≤ j then (if j.toNat < n then .ok j.toNat else .error .badInput)
+  else if -(n : Int) ≤ j then .ok ((n : Int) + j).toNat
+  else .error .badInput
+
+/-- `row[j] = x` -/
+def setAt {α : Type} (r : List α) (j : Int) (x : α) : Except Err (List α) :=
+  bind (pos r.length j) fun p => .ok (r.set p x)
+
+/-- `x[:, j] = v` for a 2-D array `x` (rows) and a 1-D array `v` with one entry per row (NumPy's broadcasting of a
+    one-entry `v` is not modelled: `badInput`) -/
+def setColA {α : Type} : List (List α) → Int → List α → Except Err (List (List α))
+  | [], _, [] => .ok []
+  | r :: m, j, x :: v => bind (setAt r j x) fun r' => bind (setColA m j v) fun m' => .ok (r' :: m')
+  | _, _, _ => .error .badInput
+
+/-- `row[lo:hi] = e` (the replaced stretch and `e` must have the same length: `badInput`) -/
+def setSeg {α : Type} (r : List α) (lo hi : Option Int) (e : List α) : Except Err (List α) :=
+  let a := match lo with
+    | none => 0
+    | some i => sliceIdx r.length i
+  let b := match hi with
+    | none => r.length
+    | some i => sliceIdx r.length i
+  if e.length = b - a then .ok (r.take a ++ e ++ r.drop (max a b)) else .error .badInput
+
+/-- `x[:, lo:hi] = e` row by row -/
+def setColsA {α : Type} : List (List α) → Option Int → Option Int → List (List α) → Except Err (List (List α))
+  | [], _, _, [] => .ok []
+  | r :: m, lo, hi, er :: e => bind (setSeg r lo hi er) fun r' => bind (setColsA m lo hi e) fun m' => .ok (r' :: m')
+  | _, _, _, _ => .error .badInput
+
+/-- `np.empty((d, n))`: no entry has a value yet -/
+def oempty (d n : Nat) : List (List (Option K)) := List.replicate d (List.replicate n none)
+
+/-- `x[:, lo:hi] = e` for a partially filled array -/
+def osetCols (m : List (List (Option K))) (lo hi : Option Int) (e : List (List K)) : Except Err (List (List (Option K))) :=
+  setColsA m lo hi (e.map fun r => r.map some)
+
+/-- `x[:, j] = v` for a partially filled array -/
+def osetCol (m : List (List (Option K))) (j : Int) (v : List K) : Except Err (List (List (Option K))) :=
+  setColA m j (v.map some)
+
+/-- `x op= c` on a partially filled array: the filled entries are updated (the others still have no value) -/
+def omap (f : K → K) (m : List (List (Option K))) : List (List (Option K)) := m.map fun r => r.map fun x => x.map f
+
+/-- reading a `np.empty` array: every entry must have been assigned (`badInput` otherwise) -/
+def oget (m : List (List (Option K))) : Except Err (List (List K)) := m.mapM fun r => r.mapM unwrap
+
+/-- `m[lo:hi, j]`: the entries of column `j` in the rows `lo:hi` -/
+def colSeg (m : List (List K)) (lo hi : Option Int) (j : Int) : Except Err (List K) :=
+  (slice m lo hi).mapM fun r => idxI r j
+
+/-- `m[lo:hi, j] = v` (as many entries as rows in the stretch: `badInput` otherwise) -/
+def setColSeg (m : List (List K)) (lo hi : Option Int) (j : Int) (v : List K) : Except Err (List (List K)) :=
+  let a := match lo with
+    | none => 0
+    | some i => sliceIdx m.length i
+  let b := match hi with
+    | none => m.length
+    | some i => sliceIdx m.length i
+  if v.length = b - a then
+    bind (setColA ((m.drop a).take (b - a)) j v) fun mid => .ok (m.take a ++ mid ++ m.drop (max a b))
+  else .error .badInput
+
+/-- `m[i, j] = c` -/
+def setEntry (m : List (List K)) (i j : Int) (c : K) : Except Err (List (List K)) :=
+  bind (pos m.length i) fun p =>
+    match m[p]? with
+    | none => .error .badInput
+    | some r => bind (setAt r j c) fun r' => .ok (m.set p r')
+
+/-- `while cond(state): state = step(state)`, at most `fuel` iterations: if the condition still holds after `fuel`
+    iterations the answer is `Err.recursion` (NOT a behaviour of the code: the theorems are stated for a sufficient `fuel`) -/
+def whileM {σ : Type} (fuel : Nat) (init : σ) (cond : σ → Bool) (step : σ → Except Err σ) : Except Err σ :=
+  match fuel with
+  | 0 => if cond init then .error .recursion else .ok init
+  | f + 1 => if cond init then bind (step init) fun s => whileM f s cond step else .ok init
+
+/-- `np.arange(a, n, dtype=float64)`: the numbers `a, a+1, .., n-1` -/
+def arange (a n : Nat) : List K := (List.range' a (n - a)).map fun i => ((i : Nat) : K)
+
+/-- `r * A` (`f r_j a_ij`) for a `1 × n` array `r` and a `d × n` array `A` (other shapes: `badInput`) -/
+def rowZip (f : K → K → K) (r : List K) (m : List (List K)) : Except Err (List (List K)) :=
+  if m.all (fun x => x.length == r.length) then .ok (m.map fun x => List.zipWith f r x) else .error .badInput
+
+"""
+RUNTIME = RUNTIME.replace("end Rt\n", RUNTIME_P4 + "end Rt\n")
+
+
+def p4_const_text(tr):
+    out = ""
+    for (mod, name), rows in sorted(getattr(tr, "p4_consts", {}).items()):
+        body = ",\n   ".join("[" + ", ".join(lit(c) for c in r) + "]" for r in rows)
+        out += "/-- `%s.%s` (module-level constant array, rows) -/\ndef %s.%s : List (List K) :=\n  [%s]\n\n" % (
+            mod, name, mod, name, body)
+    if out:
+        out = "/-! ## module-level constant arrays -/\n" + out
+    return out
+
+
+def _p4_strip(e):
+    """the name an expression is a view of (`x`, `x[...]`, `x.T`), or None"""
+    while True:
+        if isinstance(e, ast.Subscript):
+            sl = e.slice
+            if isinstance(sl, ast.Tuple) and len(sl.elts) == 2 and not any(
+                    isinstance(x, (ast.Slice, ast.List, ast.Tuple)) for x in sl.elts):
+                return None                    # x[i, j]: a number
+            e = e.value
+        elif isinstance(e, ast.Attribute) and e.attr == "T":
+            e = e.value
+        else:
+            break
+    return e.id if isinstance(e, ast.Name) else None
+
+
+_P4_NP_REDUCTIONS = {"dot", "vdot", "shape", "linalg.norm", "min", "max", "abs", "all", "std", "mean", "sum"}
+
+
+def _p4_np_name(mod, f):
+    chain, cur = [], f
+    while isinstance(cur, ast.Attribute):
+        chain.append(cur.attr)
+        cur = cur.value
+    if isinstance(cur, ast.Name) and mod.aliases.get(cur.id) == "numpy":
+        return ".".join(reversed(chain))
+    return None
+
+
+def _p4_callee(tr, mod, f):
+    """(module, function) of a call of a function of a parsed hazmat module, or None"""
+    if isinstance(f, ast.Name) and f.id in mod.funcs:
+        return (mod.name, f.id)
+    if isinstance(f, ast.Attribute) and isinstance(f.value, ast.Name):
+        al = mod.aliases.get(f.value.id)
+        if al and al not in ("numpy", "bisect"):
+            other = tr.module(al)
+            if f.attr in other.funcs:
+                return (al, f.attr)
+    return None
+
+
+def p4_analysis(tr, modname, fn, stack=()):
+    """syntactic alias analysis of one function: {"mutable": names that may be updated in place,
+    "ret_fresh": None | "array" | ("tuple", n)}"""
+    cache = tr.__dict__.setdefault("p4_cache", {})
+    key = (modname, fn)
+    if key in cache:
+        return cache[key]
+    if key in stack:
+        return {"mutable": set(), "ret_fresh": None}
+    mod = tr.module(modname)
+    node = mod.funcs.get(fn)
+    if node is None:
+        return {"mutable": set(), "ret_fresh": None}
+    params = {a.arg for a in node.args.args}
+    bindings = {}          # name -> [expr | ("unpack", expr, i, n) | "other"]
+    aliasable = set()
+
+    def fresh_expr(e):
+        if isinstance(e, ast.BinOp):
+            return True
+        if isinstance(e, ast.Attribute) and e.attr == "T":
+            return fresh_expr(e.value)
+        if isinstance(e, ast.Call):
+            nm = _p4_np_name(mod, e.func)
+            if nm in ("zeros", "empty", "ones", "dot"):
+                return True
+            cal = _p4_callee(tr, mod, e.func)
+            if cal is not None:
+                return p4_analysis(tr, cal[0], cal[1], stack + (key,))["ret_fresh"] == "array"
+        return False
+
+    def fresh_binding(b):
+        if b == "other":
+            return False
+        if isinstance(b, tuple):
+            _, e, i, n = b
+            if isinstance(e, ast.Call):
+                cal = _p4_callee(tr, mod, e.func)
+                if cal is not None:
+                    return p4_analysis(tr, cal[0], cal[1], stack + (key,))["ret_fresh"] == ("tuple", n)
+            return False
+        return fresh_expr(b)
+
+    def mark(e):
+        n = _p4_strip(e)
+        if n is not None:
+            aliasable.add(n)
+
+    returns = []
+    for st in ast.walk(node):
+        if isinstance(st, ast.Assign):
+            for t in st.targets:
+                if isinstance(t, ast.Name):
+                    bindings.setdefault(t.id, []).append(st.value)
+                    mark(st.value)
+                elif isinstance(t, (ast.Tuple, ast.List)):
+                    for i, el in enumerate(t.elts):
+                        if isinstance(el, ast.Name):
+                            bindings.setdefault(el.id, []).append(("unpack", st.value, i, len(t.elts)))
+                        else:
+                            for x in ast.walk(el):
+                                if isinstance(x, ast.Name):
+                                    bindings.setdefault(x.id, []).append("other")
+                    mark(st.value)
+                # a subscript target copies the value
+        elif isinstance(st, (ast.AnnAssign, ast.NamedExpr)):
+            for x in ast.walk(st):
+                if isinstance(x, ast.Name):
+                    bindings.setdefault(x.id, []).append("other")
+                    aliasable.add(x.id)
+        elif isinstance(st, ast.For):
+            for x in ast.walk(st.target):
+                if isinstance(x, ast.Name):
+                    bindings.setdefault(x.id, []).append("other")
+            for x in ast.walk(st.iter):
+                if isinstance(x, ast.Name):
+                    aliasable.add(x.id)
+        elif isinstance(st, (ast.ListComp, ast.SetComp, ast.DictComp, ast.GeneratorExp, ast.Lambda, ast.Starred,
+                             ast.With, ast.Global, ast.Nonlocal, ast.Yield, ast.YieldFrom, ast.IfExp)):
+            for x in ast.walk(st):
+                if isinstance(x, ast.Name):
+                    aliasable.add(x.id)
+        elif isinstance(st, ast.Return):
+            returns.append(st.value)
+        elif isinstance(st, ast.Call):
+            ok = False
+            nm = _p4_np_name(mod, st.func)
+            if nm in _P4_NP_REDUCTIONS:
+                ok = True
+            cal = _p4_callee(tr, mod, st.func)
+            if cal is not None and p4_analysis(tr, cal[0], cal[1], stack + (key,))["ret_fresh"] is not None:
+                ok = True
+            if not ok:
+                for a in list(st.args) + [kw_.value for kw_ in st.keywords]:
+                    mark(a)
+            if isinstance(st.func, ast.Attribute):
+                n = _p4_strip(st.func.value)
+                if n is not None and mod.aliases.get(n) is None:
+                    aliasable.add(n)           # receiver of a method call
+    # displays outside `return`
+    ret_nodes = set()
+    for r in returns:
+        if isinstance(r, ast.Tuple):
+            ret_nodes.add(id(r))
+    for st in ast.walk(node):
+        if isinstance(st, (ast.Tuple, ast.List, ast.Set)) and id(st) not in ret_nodes \
+                and not isinstance(getattr(st, "ctx", None), ast.Store):
+            for el in st.elts:
+                mark(el)
+        elif isinstance(st, ast.Dict):
+            for el in list(st.keys) + list(st.values):
+                if el is not None:
+                    mark(el)
+    mutable = {n for n, bs in bindings.items()
+               if n not in params and n not in aliasable and bs and all(fresh_binding(b) for b in bs)}
+
+    def fresh_ret(e):
+        if e is None:
+            return False
+        if isinstance(e, ast.Name):
+            return e.id in mutable
+        return fresh_expr(e)
+    ret = None
+    if returns:
+        if all(isinstance(r, ast.Tuple) for r in returns) and len({len(r.elts) for r in returns}) == 1 \
+                and all(fresh_ret(el) for r in returns for el in r.elts):
+            names = [el.id for r in returns for el in r.elts if isinstance(el, ast.Name)]
+            if len(names) == len(set(names)) or len(returns) > 1:
+                ret = ("tuple", len(returns[0].elts))
+        elif all(fresh_ret(r) for r in returns):
+            ret = "array"
+    cache[key] = {"mutable": mutable, "ret_fresh": ret}
+    return cache[key]
+
+
+def _is_full(x):
+    return isinstance(x, ast.Slice) and x.lower is None and x.upper is None and x.step is None
+
+
+def p4_mutable_ok(self, name, env, where):
+    if name not in p4_analysis(self.tr, self.modname, self.fn)["mutable"]:
+        raise Problem("in-place update of %s, which is not certainly a fresh array without a second reference (%s)"
+                      % (name, where))
+    if name not in env or env[name].kind not in ("MN", "MO"):
+        raise Problem("in-place update of %s of kind %r (%s)" % (name, env[name].kind if name in env else None, where))
+    if env[name].wide or env[name].inplace:
+        raise Problem("in-place update of %s (%s)" % (name, where))
+    return env[name]
+
+
+def p4_int_code(self, binds, node, env, where):
+    b, v = self.tx(node, env)
+    binds += b
+    if not self.is_int(v):
+        raise Problem("index of kind %r (%s)" % (v.kind, where))
+    return atom(self.as_int(v))
+
+
+def p4_bounds(self, binds, sl, env, where):
+    if not isinstance(sl, ast.Slice) or sl.step is not None:
+        raise Problem("slice %s (%s)" % (ast.unparse(sl), where))
+    out = []
+    for bnd in (sl.lower, sl.upper):
+        out.append("none" if bnd is None else "(some %s)" % self.p4_int_code(binds, bnd, env, where))
+    return out
+
+
+def p4_rebind(self, name, kind, binds, code, rest, env, k):
+    env2 = dict(env)
+    env2[name] = Val(kind, lname(name))
+    binds.append(("bind", lname(name), code))
+    return wrap(binds, self.block(rest, env2, k))
+
+
+def p4_slice_assign(self, target, value, rest, env, k, where):
+    if not isinstance(target.value, ast.Name):
+        return None
+    name = target.value.id
+    if name not in env or env[name].kind not in ("MN", "MO") or name in self.prealloc:
+        return None
+    cur = self.p4_mutable_ok(name, env, where)
+    sl = target.slice
+    if not (isinstance(sl, ast.Tuple) and len(sl.elts) == 2):
+        raise Problem("assignment target %s (%s)" % (ast.unparse(target), where))
+    first, second = sl.elts
+    binds, v = self.tx(value, env)
+    x = lname(name)
+    o = "o" if cur.kind == "MO" else ""
+    if _is_full(first) and isinstance(second, ast.Slice):
+        lo, hi = self.p4_bounds(binds, second, env, where)
+        if v.kind != "MN":
+            raise Problem("`%s = ...` with a value of kind %r (%s)" % (ast.unparse(target), v.kind, where))
+        prim = "Rt.osetCols" if o else "Rt.setColsA"
+        return self.p4_rebind(name, cur.kind, binds, "%s %s %s %s %s" % (prim, x, lo, hi, atom(v.code)), rest, env, k)
+    if _is_full(first):
+        if isinstance(second, ast.List) and len(second.elts) == 1:
+            second = second.elts[0]
+            want = ("C",)
+        else:
+            want = ("V", "C") if False else ("V",)
+        if v.kind not in want:
+            raise Problem("`%s = ...` with a value of kind %r (%s)" % (ast.unparse(target), v.kind, where))
+        j = self.p4_int_code(binds, second, env, where)
+        prim = "Rt.osetCol" if o else "Rt.setColA"
+        return self.p4_rebind(name, cur.kind, binds, "%s %s %s %s" % (prim, x, j, atom(v.code)), rest, env, k)
+    if cur.kind != "MN":
+        raise Problem("assignment target %s of a np.empty array (%s)" % (ast.unparse(target), where))
+    if isinstance(first, ast.Slice):
+        lo, hi = self.p4_bounds(binds, first, env, where)
+        j = self.p4_int_code(binds, second, env, where)
+        if v.kind != "V":
+            raise Problem("`%s = ...` with a value of kind %r (%s)" % (ast.unparse(target), v.kind, where))
+        return self.p4_rebind(name, "MN", binds, "Rt.setColSeg %s %s %s %s %s" % (x, lo, hi, j, atom(v.code)), rest, env, k)
+    i = self.p4_int_code(binds, first, env, where)
+    j = self.p4_int_code(binds, second, env, where)
+    v = self.as_scalar(binds, v, "array entry (%s)" % where)
+    return self.p4_rebind(name, "MN", binds, "Rt.setEntry %s %s %s %s" % (x, i, j, atom(v.code)), rest, env, k)
+
+
+def p4_partial(self, target, value, rest, env, k, where):
+    """`g = functools.partial(f, a)` for a translated two-parameter function `f(a, x)` with a float `x`: the closure
+    `fun x => f a x` (known in the environment only; it can be handed to `scipy.integrate.quad`)"""
+    f = value.func
+    if not (isinstance(f, ast.Attribute) and f.attr == "partial" and isinstance(f.value, ast.Name) and f.value.id == "functools"
+            and "functools" not in env and "functools" not in self.locals_):
+        return None
+    if value.keywords or len(value.args) != 2 or not isinstance(value.args[0], ast.Name) \
+            or value.args[0].id in env or (self.modname, value.args[0].id) not in self.tr.sigs:
+        raise Problem("functools.partial with this argument list (%s)" % where)
+    fn = value.args[0].id
+    callee = self.tr.function(self.modname, fn)
+    if callee is None or len(callee.kinds) != 2 or callee.kinds[1] != "S" or callee.mut or callee.ret != "S":
+        raise Problem("functools.partial of %s (%s)" % (fn, where))
+    binds, a = self.tx(value.args[1], env)
+    if a.kind != callee.kinds[0] or a.kind != "MN" or a.inplace:
+        raise Problem("functools.partial: argument of kind %r (%s)" % (a.kind, where))
+    for x in callee.uses_sqrt:
+        self.use_extra(x)
+    ex = " ".join(x if x in ("sqrt", "fuel", "quad") else x[1] for x in callee.uses_sqrt)
+    call = "%s %s %s x" % (lean_fn_name(self.modname, fn), ex, atom(a.code))
+    code = "(fun (x : K) => %s)" % (call if callee.monadic else "(.ok (%s) : Except Err K)" % call)
+    env2 = dict(env)
+    env2[target.id] = Val("CL", lname(target.id))
+    return wrap(binds, Let("%s : K → Except Err K" % lname(target.id), code, self.block(rest, env2, k)))
+
+
+def p4_assign(self, target, value, rest, env, k, where):
+    """`x = np.empty((d, n))` / `np.empty(a.shape)`: a 2-D array no entry of which has a value"""
+    if isinstance(target, ast.Name) and isinstance(value, ast.Call):
+        r = self.p4_partial(target, value, rest, env, k, where)
+        if r is not None:
+            return r
+    if not (isinstance(target, ast.Name) and isinstance(value, ast.Call) and _p4_np_name(self.mod, value.func) == "empty"):
+        return None
+    kw = {kk.arg: kk.value for kk in value.keywords}
+    if len(value.args) != 1 or not set(kw) <= {"order"}:
+        return None
+    shp = value.args[0]
+    if isinstance(shp, ast.Tuple):
+        if len(shp.elts) != 2 or [self.const_int(e) for e in shp.elts] == [2, 2]:
+            return None
+        binds, dims = [], []
+        for e in shp.elts:
+            b, v = self.tx(e, env)
+            binds += b
+            dims.append(v)
+    else:
+        binds, sv = self.tx(shp, env)
+        if not (is_tuple(sv.kind) and len(sv.kind[1]) == 2 and sv.comps):
+            return None
+        dims = list(sv.comps)
+    if not all(self.natlike(d) for d in dims):
+        raise Problem("np.empty with a dimension that is not known to be >= 0 (%s)" % where)
+    self.p4_mutable_ok_name(target.id, where)
+    env2 = dict(env)
+    env2[target.id] = Val("MO", lname(target.id))
+    code = "(Rt.oempty %s %s : List (List (Option K)))" % (atom(self.as_nat(dims[0])), atom(self.as_nat(dims[1])))
+    return wrap(binds, Let(lname(target.id), code, self.block(rest, env2, k)))
+
+
+def p4_mutable_ok_name(self, name, where):
+    if name not in p4_analysis(self.tr, self.modname, self.fn)["mutable"]:
+        raise Problem("np.empty array %s may get a second reference (%s)" % (name, where))
+
+
+def p4_while(self, st, rest, env, k, where):
+    if st.orelse:
+        raise Problem("while ... else (%s)" % where)
+    for n in ast.walk(st):
+        if isinstance(n, (ast.Break, ast.Continue, ast.Return)):
+            raise Problem("break / continue / return inside a while loop (%s)" % where)
+    names = assigned_names(st.body, env)
+    carried = [n for n in env if n in names]
+    kinds = {n: env[n].kind for n in carried}
+    for n in carried:
+        if env[n].inplace or env[n].wide or is_list(kinds[n]) or is_tuple(kinds[n]) or kinds[n] in ("none", "nan", "VB", "MO"):
+            raise Problem("while-carried variable %s of kind %r (%s)" % (n, kinds[n], where))
+    e0 = dict(env)
+    for n in carried:
+        e0[n] = Val(kinds[n], lname(n))
+    for n in names:
+        if n not in carried:
+            e0.pop(n, None)
+    cb, c = self.tx(st.test, e0)
+    c = self.truth(c)
+    if cb or c.kind != "B":
+        raise Problem("while condition of kind %r / that can raise (%s)" % (c.kind, where))
+    got = []
+
+    def kb(e):
+        got.append(e)
+        for n in carried:
+            if n not in e or e[n].kind != kinds[n]:
+                raise Problem("variable %s changes its kind in the while loop (%s)" % (n, where))
+        cs = [e[n].code for n in carried]
+        return Yield(cs[0] if len(cs) == 1 else "(" + ", ".join(cs) + ")")
+    if not carried:
+        raise Problem("while loop without state (%s)" % where)
+    body = self.block(st.body, e0, kb)
+    spat = lname(carried[0]) if len(carried) == 1 else "(" + ", ".join(lname(n) for n in carried) + ")"
+    init = env[carried[0]].code if len(carried) == 1 else "(" + ", ".join(env[n].code for n in carried) + ")"
+    sty = lty(kinds[carried[0]]) if len(carried) == 1 else lty(("tuple", tuple(kinds[n] for n in carried)))
+    env2 = dict(env)
+    for n in names:
+        if n not in carried:
+            env2.pop(n, None)
+    for n in carried:
+        env2[n] = Val(kinds[n], lname(n))
+    self.use_extra("fuel")
+    return P4While(c.code, spat, init, sty, body, self.block(rest, env2, k))
+
+
+def p4_stmt(self, st, rest, env, k, where):
+    if isinstance(st, ast.Import) and [a.name for a in st.names] == ["scipy.integrate"] and st.names[0].asname is None \
+            and "scipy" not in env:
+        self.p4_scipy = True             # a local import: no effect other than binding the name `scipy`
+        return self.block(rest, env, k)
+    if isinstance(st, ast.While):
+        return self.p4_while(st, rest, env, k, where)
+    if isinstance(st, ast.Raise) and not rest and st.cause is None:
+        exc = st.exc.func if isinstance(st.exc, ast.Call) else st.exc
+        if isinstance(exc, ast.Attribute) and isinstance(exc.value, ast.Name) and exc.value.id not in env \
+                and self.mod.aliases.get(exc.value.id) == "helpers" and exc.attr in EXC \
+                and exc.attr in self.tr.module("helpers").classes:
+            return Fail(EXC[exc.attr])
+        return None
+    if isinstance(st, ast.AugAssign) and isinstance(st.target, ast.Name) and st.target.id in env \
+            and env[st.target.id].kind in ("MN", "MO") and isinstance(st.op, (ast.Mult, ast.Div)):
+        name = st.target.id
+        cur = self.p4_mutable_ok(name, env, where)
+        binds, v = self.tx(st.value, env)
+        v = self.as_scalar(binds, v, "right operand of an in-place array update (%s)" % where)
+        op = "*" if isinstance(st.op, ast.Mult) else "/"
+        t = self.tmp()
+        binds.append(("let", t, v.code))
+        env2 = dict(env)
+        env2[name] = Val(cur.kind, lname(name))
+        prim = "Rt.omap" if cur.kind == "MO" else "Rt.mmap"
+        return wrap(binds, Let(lname(name), "%s (fun x => x %s %s) %s" % (prim, op, t, lname(name)), self.block(rest, env2, k)))
+    if isinstance(st, ast.AugAssign) and isinstance(st.target, ast.Subscript) and isinstance(st.target.value, ast.Name) \
+            and isinstance(st.op, (ast.Add, ast.Sub)):
+        name = st.target.value.id
+        if name not in env or env[name].kind != "MN":
+            return None
+        self.p4_mutable_ok(name, env, where)
+        sl = st.target.slice
+        if not (isinstance(sl, ast.Tuple) and len(sl.elts) == 2 and isinstance(sl.elts[0], ast.Slice)
+                and not isinstance(sl.elts[1], ast.Slice)):
+            raise Problem("augmented assignment target %s (%s)" % (ast.unparse(st.target), where))
+        binds = []
+        lo, hi = self.p4_bounds(binds, sl.elts[0], env, where)
+        j = self.p4_int_code(binds, sl.elts[1], env, where)
+        b2, v = self.tx(st.value, env)
+        binds += b2
+        if v.kind != "V":
+            raise Problem("`%s op= ...` with a value of kind %r (%s)" % (ast.unparse(st.target), v.kind, where))
+        x = lname(name)
+        t1, t2 = self.tmp(), self.tmp()
+        op = "+" if isinstance(st.op, ast.Add) else "-"
+        binds.append(("bind", t1, "Rt.colSeg %s %s %s %s" % (x, lo, hi, j)))
+        binds.append(("bind", t2, "Rt.vzip (fun x y => x %s y) %s %s" % (op, t1, atom(v.code))))
+        return self.p4_rebind(name, "MN", binds, "Rt.setColSeg %s %s %s %s %s" % (x, lo, hi, j, t2), rest, env, k)
+    return None
+
+
+def p4_tx(self, node, env, where):
+    if isinstance(node, ast.Name):
+        if node.id in env and env[node.id].kind == "MO":
+            t = self.tmp()                     # reading a np.empty array: every entry must have been assigned
+            return [("bind", t, "Rt.oget %s" % env[node.id].code)], Val("MN", t)
+        if node.id not in env and node.id in self.mod.consts and node.id not in self.locals_:
+            rows = self.p4_const_array(self.mod.consts[node.id])
+            if rows is not None:
+                self.tr.__dict__.setdefault("p4_consts", {})[(self.modname, node.id)] = rows
+                return [], Val("MN", "(%s.%s : List (List K))" % (self.modname, node.id))
+        return None
+    if isinstance(node, ast.BinOp) and isinstance(node.op, ast.Pow):
+        kk = self.const_int(node.right)
+        if kk is None or not 2 <= kk <= 4 or self.const_eval(node.left) is not None:
+            return None
+        binds, a = self.tx(node.left, env)
+        a = self.as_scalar(binds, a, "base of ** (%s)" % where)
+        t = self.tmp()
+        binds.append(("let", t, a.code))
+        code = t
+        for _ in range(kk - 1):
+            code = "(%s * %s)" % (code, t)
+        return binds, Val("S", code)
+    if isinstance(node, ast.BinOp) and isinstance(node.op, (ast.Add, ast.Sub, ast.Mult, ast.Div)):
+        keep = self.ntmp
+        binds, a = self.tx(node.left, env)
+        b2, b = self.tx(node.right, env)
+        binds += b2
+        op = {ast.Add: "+", ast.Sub: "-", ast.Mult: "*", ast.Div: "/"}[type(node.op)]
+        sc = ("S", "I", "N")
+        if a.kind == "R" and b.kind == "MN" and op == "*":
+            t = self.tmp()
+            binds.append(("bind", t, "Rt.rowZip (fun x y => x * y) %s %s" % (atom(a.code), atom(b.code))))
+            return binds, Val("MN", t)
+        if a.kind == "MN" and b.kind == "R" and op == "*":
+            t = self.tmp()
+            binds.append(("bind", t, "Rt.rowZip (fun y x => x * y) %s %s" % (atom(b.code), atom(a.code))))
+            return binds, Val("MN", t)
+        if a.kind in sc and b.kind in ("R", "V") and op in "+-*":
+            a = self.as_scalar(binds, a, "operand of %s (%s)" % (op, where))
+            return binds, Val(b.kind, "List.map (fun x => %s %s x) %s" % (atom(a.code), op, atom(b.code)))
+        if a.kind in ("R", "V") and b.kind in sc:
+            b = self.as_scalar(binds, b, "operand of %s (%s)" % (op, where))
+            return binds, Val(a.kind, "List.map (fun x => x %s %s) %s" % (op, atom(b.code), atom(a.code)))
+        self.ntmp = keep
+        return None
+    if isinstance(node, ast.Subscript):
+        sl = node.slice
+        # V[np.newaxis, :]
+        if isinstance(sl, ast.Tuple) and len(sl.elts) == 2 and _is_full(sl.elts[1]) \
+                and isinstance(sl.elts[0], ast.Attribute) and sl.elts[0].attr == "newaxis" \
+                and isinstance(sl.elts[0].value, ast.Name) and self.mod.aliases.get(sl.elts[0].value.id) == "numpy":
+            keep = self.ntmp
+            binds, base = self.tx(node.value, env)
+            if base.kind == "V":
+                return binds, Val("R", base.code)
+            self.ntmp = keep
+            return None
+        # m[lo:hi, j]
+        if isinstance(sl, ast.Tuple) and len(sl.elts) == 2 and isinstance(sl.elts[0], ast.Slice) \
+                and not _is_full(sl.elts[0]) and not isinstance(sl.elts[1], (ast.Slice, ast.List)):
+            keep = self.ntmp
+            binds, base = self.tx(node.value, env)
+            if base.kind != "MN" or base.wide:
+                self.ntmp = keep
+                return None
+            lo, hi = self.p4_bounds(binds, sl.elts[0], env, where)
+            j = self.p4_int_code(binds, sl.elts[1], env, where)
+            t = self.tmp()
+            binds.append(("bind", t, "Rt.colSeg %s %s %s %s" % (atom(base.code), lo, hi, j)))
+            return binds, Val("V", t)
+        return None
+    if isinstance(node, ast.Call) and ast.unparse(node.func) == "scipy.integrate.quad" and getattr(self, "p4_scipy", False) \
+            and "scipy" not in env:
+        if node.keywords or len(node.args) != 3 or not isinstance(node.args[0], ast.Name) \
+                or node.args[0].id not in env or env[node.args[0].id].kind != "CL":
+            raise Problem("scipy.integrate.quad with this argument list (%s)" % where)
+        binds, a = self.tx(node.args[1], env)
+        b2, b = self.tx(node.args[2], env)
+        binds += b2
+        a = self.as_scalar(binds, a, "integration bound (%s)" % where)
+        b = self.as_scalar(binds, b, "integration bound (%s)" % where)
+        self.use_extra("quad")
+        t = self.tmp()
+        binds.append(("bind", t, "quad %s %s %s" % (env[node.args[0].id].code, atom(a.code), atom(b.code))))
+        return binds, Val(("tuple", ("S", "S")), t)
+    if isinstance(node, ast.Call) and isinstance(node.func, ast.Attribute) and node.func.attr == "ravel" \
+            and not node.args and [kk.arg for kk in node.keywords] == ["order"] \
+            and isinstance(node.keywords[0].value, ast.Constant) and node.keywords[0].value.value == "F":
+        keep = self.ntmp
+        binds, base = self.tx(node.func.value, env)
+        if base.kind == "C":
+            return binds, Val("V", base.code)
+        self.ntmp = keep
+        return None
+    return None
+
+
+def p4_const_array(self, e):
+    if not (isinstance(e, ast.Call) and _p4_np_name(self.mod, e.func) in ("asfortranarray", "array")
+            and len(e.args) == 1 and not e.keywords and isinstance(e.args[0], ast.List) and e.args[0].elts):
+        return None
+    rows = []
+    for r in e.args[0].elts:
+        if not isinstance(r, ast.List) or not r.elts:
+            return None
+        row = [self.const_eval(c) for c in r.elts]
+        if any(c is None for c in row):
+            return None
+        rows.append(row)
+    if len({len(r) for r in rows}) != 1:
+        return None
+    return rows
+
+
+def p4_prim(self, node, target, kw, env, where):
+    name = target[1]
+    if target[0] == "np" and name == "zeros" and len(node.args) == 1 and set(kw) <= {"order"} \
+            and isinstance(node.args[0], ast.Tuple) and len(node.args[0].elts) == 2:
+        keep = self.ntmp
+        binds, d0 = self.tx(node.args[0].elts[0], env)
+        b2, d1 = self.tx(node.args[0].elts[1], env)
+        binds += b2
+        if d1.kind == "S" and d1.intval == 1:
+            self.ntmp = keep
+            return None
+        if not (self.is_int(d0) and self.is_int(d1)):
+            raise Problem("np.zeros with this shape (%s)" % where)
+        for d in (d0, d1):
+            if not self.natlike(d):
+                t = self.tmp()
+                binds.append(("bind", t, "(if %s < 0 then .error .valueError else .ok () : Except Err Unit)" % atom(self.as_int(d))))
+        return binds, Val("MN", "Rt.mfill %s %s (0 : K)" % (atom(self.dim_nat(d0)), atom(self.dim_nat(d1))))
+    if target[0] == "np" and name == "linalg.norm" and len(node.args) == 1 and set(kw) == {"ord"} \
+            and isinstance(kw["ord"], ast.Constant) and kw["ord"].value == "fro":
+        binds, v = self.tx(node.args[0], env)
+        if v.kind != "MN":
+            raise Problem("Frobenius norm of a value of kind %r (%s)" % (v.kind, where))
+        self.use_extra("sqrt")
+        return binds, Val("S", "sqrt (Model.frobSq %s)" % atom(v.code))
+    if target[0] == "np" and name == "arange" and len(node.args) == 2 and set(kw) <= {"dtype"}:
+        if "dtype" in kw:
+            d = kw["dtype"]
+            if isinstance(d, ast.Name) and d.id in self.mod.consts and d.id not in self.locals_:
+                d = self.mod.consts[d.id]
+            if _p4_np_name(self.mod, d) != "float64":
+                raise Problem("np.arange with this dtype (%s)" % where)
+        else:
+            raise Problem("np.arange without dtype=float64 (integer array) (%s)" % where)
+        a = self.const_int(node.args[0])
+        binds, n = self.tx(node.args[1], env)
+        if a is None or a < 0 or not self.is_int(n):
+            raise Problem("np.arange with these bounds (%s)" % where)
+        return binds, Val("V", "(Rt.arange %d %s : List K)" % (a, atom(self.dim_nat(n))))
+    return None
+
+
+for _f in (p4_partial, p4_while, p4_mutable_ok, p4_int_code, p4_bounds, p4_rebind, p4_slice_assign, p4_assign, p4_mutable_ok_name, p4_stmt,
+           p4_tx, p4_const_array, p4_prim):
+    setattr(FunctionTranslator, _f.__name__, _f)
+
 HEADER = """\
 /- GENERATED by harness/translate_py.py from the pure-Python sources of /repo's working tree on every
    run; do not edit.  One definition per translated function; the equalities with the hand-written
@@ -3772,6 +4564,7 @@ def main():
     if tr.tables:
         enums += "/-! ## module-level array constants -/\n" + "".join(
             "/-- `%s` -/\ndef %s : %s :=\n  %s\n\n" % (src, n, ty, code) for n, (ty, code, src) in sorted(tr.tables.items()))
+    enums += p4_const_text(tr)                         # phase 4 (pycurve): module-level constant arrays
     text = HEADER + RUNTIME + "\n" + enums + "/-! ## translated functions -/\n\n" + "\n".join(parts) + "\nend BezierVerif.Src.Py\n"
     old = None
     if os.path.exists(out):
